@@ -606,3 +606,47 @@ def layer_c_units(quick: bool, overlap: bool = False) -> List[Tuple[str, List[Di
     progs = layer_c_programs(quick, overlap)
     chunk = 150
     return [(f"C/{'overlap/' if overlap else ''}{c // chunk}", progs[c:c + chunk]) for c in range(0, len(progs), chunk)]
+
+
+# ---------------------------------------------------------------------------------------------
+# Layer B: compu.  One VALUE parameter whose DOP has an integer internal type and a compu method drawn from
+# C07's configuration space; physical values = images of ALL internal values under the exact reference
+# (+ neighbours), so that the wire-level checks see every compu category end to end.
+# ---------------------------------------------------------------------------------------------
+def layer_b_units(quick: bool) -> List[Tuple[str, List[Dict[str, Any]]]]:
+    from checks import c07
+    from . import refcompu as RC
+    from .emit_compu import INTERNAL_TYPES
+    methods: List[Any] = []
+    for gen in (c07.gen_linear, c07.gen_scale_linear, c07.gen_tab_intp, c07.gen_rat_func, c07.gen_scale_rat_func, c07.gen_texttable):
+        ms = [m for m in gen(True) if m[0] in ("u8", "i8") and "default_int" not in m[2]]
+        methods += ms[::7] if quick else ms
+    progs = []
+    for idx, (it, pt, cm) in enumerate(methods):
+        dct = INTERNAL_TYPES[it]
+        base = dct["base"]
+        internals = range(0, 256) if it == "u8" else range(-128, 128)
+        vals: List[Any] = []
+        seen = set()
+        for x in internals:
+            p = RC.int_to_phys(cm, base, pt, x)
+            if p is RC.INVALID or p is RC.DONT_CARE:
+                continue
+            cands = [p]
+            if isinstance(p, int) and not isinstance(p, bool):
+                cands += [p + 1, p - 1] if x % 16 == 0 else []
+            elif isinstance(p, float):
+                cands += [p + 0.5] if x % 16 == 0 else []
+            for c in cands:
+                k = repr(c)
+                if k not in seen:
+                    seen.add(k)
+                    vals.append(c)
+        if not vals:
+            continue
+        pid = f"b{idx}_{cm['cat'].replace('-', '')}_{it}_{pt[2:5]}"
+        d = {"name": "d_" + pid, "dct": dct, "phys": pt, "cm": cm}
+        progs.append({"pid": pid, "dops": [d], "params": [{"t": "VALUE", "name": "v", "dop": d["name"]}],
+                      "assign": [{"v": v} for v in vals], "tags": ["compu", cm["cat"], it, pt]})
+    chunk = 40
+    return [(f"B/{c // chunk}", progs[c:c + chunk]) for c in range(0, len(progs), chunk)]
